@@ -448,9 +448,14 @@ pub enum Decision {
     /// the program holds a few hundred files open at once: what is this machine's soft limit on
     /// open file descriptors (`ulimit -n`: 256 on macOS, 1024 on most Linux distributions)?
     FdLimit { n: u32 },
+    /// the `at`-th read of a file in this run fails with EIO (a bad sector, a flaky network
+    /// mount): the one hard I/O fault of the gating runs. A run that meets it may fail loudly;
+    /// it may not complete with a different table.
+    ReadFault { at: u64 },
 }
 
 pub const NO_DEVIATION: u32 = u32::MAX;
+pub const NO_FAULT: u64 = u64::MAX;
 pub const DEFAULT_CORES: u32 = 8;
 pub const DEFAULT_FD_LIMIT: u32 = 1024;
 /// open descriptors at which the machine's limit becomes a decision of the run
@@ -467,6 +472,7 @@ impl Decision {
             Decision::Timeout { fired } => !*fired,
             Decision::Program { available, .. } => *available,
             Decision::FdLimit { n } => *n == DEFAULT_FD_LIMIT,
+            Decision::ReadFault { at } => *at == NO_FAULT,
         }
     }
     pub fn defaulted(&self) -> Decision {
@@ -496,6 +502,7 @@ impl Decision {
                 available: true,
             },
             Decision::FdLimit { .. } => Decision::FdLimit { n: DEFAULT_FD_LIMIT },
+            Decision::ReadFault { .. } => Decision::ReadFault { at: NO_FAULT },
         }
     }
     /// scheduling deviations live in their own stream (keyed by step), `Open` decisions are keyed
@@ -563,6 +570,8 @@ pub struct Profile {
     pub out_io: bool,
     /// Spotlight / Cluster pick their entries from the directory's stand-out entries
     pub biased: bool,
+    /// one read of this run fails with EIO
+    pub read_fault: bool,
 }
 
 impl Profile {
@@ -576,6 +585,7 @@ impl Profile {
         stall: false,
         out_io: false,
         biased: false,
+        read_fault: false,
     };
 
     /// Swarm-style: every run draws its own mix.
@@ -612,6 +622,7 @@ impl Profile {
             stall: false,
             out_io: false,
             biased: false,
+            read_fault: false,
         }
     }
 
@@ -638,6 +649,7 @@ impl Profile {
             };
         }
         self.biased = aux.chance(1, 2);
+        self.read_fault = aux.chance(1, 6);
     }
 
     /// member `j` of the deterministic adjacency-covering batch
@@ -655,6 +667,7 @@ impl Profile {
             stall: false,
             out_io: false,
             biased: false,
+            read_fault: false,
         }
     }
 
@@ -844,6 +857,7 @@ pub struct RunStats {
     pub emfile: u64,
     pub max_open_fds: u64,
     pub parallel_stages: u64,
+    pub read_faults_injected: u64,
 }
 
 impl RunStats {
@@ -884,6 +898,7 @@ impl RunStats {
         self.emfile += o.emfile;
         self.max_open_fds = self.max_open_fds.max(o.max_open_fds);
         self.parallel_stages += o.parallel_stages;
+        self.read_faults_injected += o.read_faults_injected;
     }
 }
 
@@ -1083,6 +1098,10 @@ pub struct World {
     pub pid: u32,
     pub epoch: u32,
     pub intruder: Option<IntruderPlan>,
+    /// the gating read fault of this run has been decided (at its first read)
+    pub read_fault_decided: bool,
+    /// the hard fault of this run is the gating one (EIO on a read): failing loudly is fine
+    pub gating_fault: bool,
     pub intruded: bool,
     pub intruder_result: Option<Box<crate::sim::RunResult>>,
     pub inodes: Inodes,
@@ -1184,6 +1203,8 @@ impl World {
             pid: 4711,
             epoch: 0,
             intruder: None,
+            read_fault_decided: false,
+            gating_fault: false,
             intruded: false,
             intruder_result: None,
             inodes: Inodes::default(),
@@ -1685,6 +1706,45 @@ impl World {
         self.event("timeout", fired as u64, 0);
         self.trace.push(Decision::Timeout { fired });
         fired
+    }
+
+    /// At the first file read of a run: does one of its reads fail with EIO, and which?
+    pub fn decide_read_fault(&mut self) {
+        if self.read_fault_decided || self.hard.is_some() {
+            return;
+        }
+        self.read_fault_decided = true;
+        let at = match &mut self.mode {
+            Mode::Random { aux, profile, .. } => {
+                if profile.read_fault && profile.cover_iter.is_none() {
+                    if aux.chance(1, 2) {
+                        aux.below(4)
+                    } else {
+                        aux.below(720)
+                    }
+                } else {
+                    NO_FAULT
+                }
+            }
+            Mode::Replay(ReplayPlan { q, .. }) => match q.front() {
+                Some(Decision::ReadFault { at }) => {
+                    let a = *at;
+                    q.pop_front();
+                    a
+                }
+                _ => NO_FAULT,
+            },
+        };
+        if at != NO_FAULT {
+            self.hard = Some(HardPlan {
+                kind: HardKind::ReadEio,
+                at,
+                salt: 0,
+            });
+            self.gating_fault = true;
+            self.event("read_fault_planned", at, 0);
+            self.trace.push(Decision::ReadFault { at });
+        }
     }
 
     /// Is the optional external tool `name` installed on this simulated machine?
